@@ -36,7 +36,7 @@ func init() {
 		ID:    "C10",
 		Level: "exploration",
 		Rule: "exhaustive: every sequence over {a,c,g,t,n} of length 5..7 (quick) / 5..9 (thorough) at k=4 with all 256 words and all sub-ranges; random: sequences of 5..5000 letters over acgtACGT (DNA, RNA, a case-sensitive custom alphabet) " +
-			"with runs of non-alphabet bytes, k=4..10 (thorough ..12), random sub-ranges and words; the index also walks a second sequence (reversed, rotated, other first letters); a hostile caller overwrites and appends to a quarter of the answers before every present word is queried again; oracle = string scanning. Non-trivial = at least one valid window and (for random cases) at least one invalid letter or repeated word; distinct = sequence text + k",
+			"with runs of non-alphabet bytes, k=4..10 (thorough ..12), random sub-ranges and words; four more alphabets list their letters in another order (TGCA, agct, tcga); the index also walks a second sequence (reversed, rotated, other first letters; of exactly k letters, shorter, and several times longer; with a callback that queries the index, starts a nested walk, or panics); a second and a third index of the same k are alive in a third of the cases, and 6 goroutines build indexes of their own in an eighth; the index-free helpers are tried at every k up to MaxKmerLen; a hostile caller overwrites and appends to a quarter of the answers before every present word is queried again; oracle = string scanning. Non-trivial = at least one valid window and (for random cases) at least one invalid letter or repeated word; distinct = sequence text + k",
 		Batches: func(t string) int {
 			if t == "thorough" {
 				return 16
@@ -97,9 +97,21 @@ func c10Custom() string {
 		return c
 	}
 	a, b := mk("ACGT", "ACGT", "TGCA", alphabet.CaseSensitive), mk("ACGT", "ACGTacgt", "TGCAtgca", !alphabet.CaseSensitive)
+	// letters listed in an order that is not their byte order: a letter's code is its place in the definition
+	// (Letter / IndexOf), whatever the bytes are. A/T keep codes 0/3 and C/G 1/2, so the GC fraction and the 3-i
+	// complement mean what they mean for ACGT
+	more := []alphabet.Complementor{
+		mk("TGCA", "ACGTacgt", "TGCAtgca", !alphabet.CaseSensitive),
+		mk("TGCA", "ACGT", "TGCA", alphabet.CaseSensitive),
+		mk("agct", "ACGTacgt", "TGCAtgca", !alphabet.CaseSensitive),
+		mk("tcga", "acgt", "tgca", alphabet.CaseSensitive),
+	}
 	if c10CustomErr == "" {
 		c10Cased, c10UpperDef = a, b
 		c10Alphas[2].a, c10Alphas[3].a = a, b
+		for i, m := range more {
+			c10Alphas[4+i].a = m
+		}
 	}
 	return c10CustomErr
 }
@@ -116,6 +128,10 @@ var c10Alphas = []c10alpha{
 	{"RNA", alphabet.RNA, "acgu", false},
 	{"cased-ACGT", nil, "ACGT", true},               // filled in by c10Custom
 	{"uncased-defined-as-ACGT", nil, "acgt", false}, // a case-insensitive alphabet whose definition is written in upper case
+	{"uncased-defined-as-TGCA", nil, "tgca", false},
+	{"cased-TGCA", nil, "TGCA", true},
+	{"uncased-defined-as-agct", nil, "agct", false},
+	{"cased-tcga", nil, "tcga", true},
 }
 
 func (a c10alpha) code(b byte) int {
@@ -179,6 +195,13 @@ func c10Check(r *obs.Run, a c10alpha, s []byte, k int, exhaustive bool) {
 			nvalid++
 		}
 	}
+	cx := &c10ctx{r: r, a: a, k: k, s: s, sq: sq, ki: ki, valid: valid, word: word, refPos: refPos, nvalid: nvalid, fail: fail}
+	// now and then a second index of the same k over other letters is made here and stays alive (unbuilt) through all of
+	// the following; it is built, and a third one made, at the end. Independent indexes share nothing
+	var second *c10two
+	if (!exhaustive && r.Rng.Intn(3+3*(k/11)) == 0) || (exhaustive && r.Rng.Intn(64) == 0) {
+		second = cx.secondIndex()
+	}
 	// pre-build frequency table
 	freq, ok := ki.KmerFrequencies()
 	if !ok {
@@ -224,6 +247,9 @@ func c10Check(r *obs.Run, a c10alpha, s []byte, k int, exhaustive bool) {
 				break
 			}
 		}
+	}
+	if !exhaustive && r.Rng.Intn(2) == 0 {
+		cx.otherLengths("index not built yet")
 	}
 	ki.Build()
 	if f, ok := ki.KmerFrequencies(); ok || f != nil {
@@ -441,8 +467,9 @@ func c10Check(r *obs.Run, a c10alpha, s []byte, k int, exhaustive bool) {
 			query(wd)
 		}
 	}
-	// several readers of the one built index at the same time (each asks for words of its own): formatting, positions and
-	// the string-keyed map are read-only questions, so every answer is the one a single reader gets
+	// several readers of the one built index at the same time (each asks for words of its own): formatting, encoding,
+	// positions by word and by text, the maps, Check and walks over a sequence of the reader's own are read-only questions,
+	// so every answer is the one a single reader gets
 	if !exhaustive && len(refPos) > 0 && r.Rng.Intn(4) == 0 {
 		var words []int
 		for wd := range refPos {
@@ -452,6 +479,29 @@ func c10Check(r *obs.Run, a c10alpha, s []byte, k int, exhaustive bool) {
 		const readers = 6
 		type bad struct{ what, got, want string }
 		bads := make([]*bad, readers)
+		// every reader also walks a sequence of its own over sub-ranges of its own (drawn here, on the main goroutine)
+		type ownWalk struct {
+			sq          *linear.Seq
+			valid       []bool
+			word        []int
+			start, end  []int
+			upper, asks []bool
+		}
+		own := make([]ownWalk, readers)
+		for g := range own {
+			o := c10Near(r.Rng, a, s, k, 200)
+			if r.Rng.Intn(2) == 0 {
+				o = c10Fresh(r.Rng, a, k+1+r.Rng.Intn(200), 30)
+			}
+			ow := ownWalk{sq: linear.NewSeq("own", alphabet.BytesToLetters(append([]byte(nil), o...)), a.a)}
+			ow.valid, ow.word = c10Ref(a, o, k)
+			for rep := 0; rep < 40; rep++ {
+				st := r.Rng.Intn(len(o) - k + 1)
+				ow.start, ow.end = append(ow.start, st), append(ow.end, st+k+r.Rng.Intn(len(o)-st-k+1))
+				ow.upper, ow.asks = append(ow.upper, !a.cased && r.Rng.Intn(2) == 0), append(ow.asks, r.Rng.Intn(20) == 0)
+			}
+			own[g] = ow
+		}
 		var wg sync.WaitGroup
 		start := make(chan struct{})
 		for g := 0; g < readers; g++ {
@@ -476,6 +526,52 @@ func c10Check(r *obs.Run, a c10alpha, s []byte, k int, exhaustive bool) {
 					sort.Ints(gs)
 					if err != nil || !reflect.DeepEqual(gs, refPos[wd]) {
 						bads[g] = &bad{"KmerPositions(" + text + ")", fmt.Sprint(got, err), fmt.Sprint(refPos[wd])}
+					}
+					ask := text
+					if own[g].upper[rep] {
+						ask = strings.ToUpper(text)
+					}
+					got, err = ki.KmerPositionsString(ask)
+					if gs = append(gs[:0], got...); err == nil {
+						sort.Ints(gs)
+					}
+					if err != nil || !reflect.DeepEqual(gs, refPos[wd]) {
+						bads[g] = &bad{"KmerPositionsString(" + ask + ")", fmt.Sprint(got, err), fmt.Sprint(refPos[wd])}
+					}
+					if km, err := ki.KmerOf(ask); err != nil || int(km) != wd {
+						bads[g] = &bad{"KmerOf(" + ask + ")", fmt.Sprint(km, err), fmt.Sprint(wd)}
+					}
+					{
+						ow := own[g]
+						var pos, kms, wp, wk []int
+						st, en := ow.start[rep], ow.end[rep]
+						err := ki.ForEachKmerOf(ow.sq, st, en, func(_ *kmerindex.Index, p, km int) {
+							pos = append(pos, p)
+							kms = append(kms, km)
+						})
+						for p := st; p+k <= en; p++ {
+							if ow.valid[p] {
+								wp = append(wp, p)
+								wk = append(wk, ow.word[p])
+							}
+						}
+						if err != nil || !reflect.DeepEqual(pos, wp) || !reflect.DeepEqual(kms, wk) {
+							bads[g] = &bad{fmt.Sprintf("ForEachKmerOf over [%d,%d) of the reader's own sequence %.40q", st, en, alphabet.LettersToBytes(ow.sq.Seq)), fmt.Sprint(pos, kms, err), fmt.Sprint(wp, wk)}
+						}
+					}
+					if own[g].asks[rep] {
+						if ok, found := ki.Check(); !ok || found != nvalid {
+							bads[g] = &bad{"Check()", fmt.Sprint(ok, found), fmt.Sprint(true, nvalid)}
+						}
+						m, ok := ki.KmerIndex()
+						if !ok || len(m) != len(refPos) {
+							bads[g] = &bad{"KmerIndex size", fmt.Sprint(len(m)), fmt.Sprint(len(refPos))}
+						}
+						for _, w2 := range words {
+							if len(m[kmerindex.Kmer(w2)]) != len(refPos[w2]) && bads[g] == nil {
+								bads[g] = &bad{"KmerIndex entry of " + c10Text(a, w2, k), fmt.Sprint(m[kmerindex.Kmer(w2)]), fmt.Sprint(refPos[w2])}
+							}
+						}
 					}
 					if rep%10 == g%10 {
 						sm, ok := ki.StringKmerIndex()
@@ -594,6 +690,14 @@ func c10Check(r *obs.Run, a c10alpha, s []byte, k int, exhaustive bool) {
 			}
 		}
 	}
+	if !exhaustive || r.Rng.Intn(32) == 0 {
+		cx.otherLengths("built index")
+		cx.reentrant()
+	}
+	cx.secondIndexFinish(second)
+	if !exhaustive && k <= 10 && r.Rng.Intn(8) == 0 {
+		cx.builders()
+	}
 	// the same letters held by a sequence that does not start at 0: occurrence counts are what they were, and the
 	// positions are the same ones either as indices into the letters or shifted by the sequence's offset throughout
 	if !exhaustive && r.Rng.Intn(4) == 0 {
@@ -682,6 +786,10 @@ func c10Check(r *obs.Run, a c10alpha, s []byte, k int, exhaustive bool) {
 		for x := 0; x < k; x++ {
 			c := a.code(text[k-1-x])
 			rc[x] = a.letters[3-c]
+			if cmp, ok := a.a.(alphabet.Complementor); ok { // the string operation: the alphabet's own pairing (the same letter for every alphabet used here)
+				l, _ := cmp.Complement(alphabet.Letter(text[k-1-x]))
+				rc[x] = byte(l)
+			}
 		}
 		if got := ki.Format(ki.ComplementOf(kmerindex.Kmer(wd))); got != string(rc) {
 			fail("revcomp", "ComplementOf("+text+")", got, string(rc))
@@ -696,7 +804,7 @@ func c10Check(r *obs.Run, a c10alpha, s []byte, k int, exhaustive bool) {
 	for _, n := range []int{0, 1, k - 1, k + 1, 2 * k} { // a k-mer has k letters: both copies of KmerOf say so
 		wd := strings.Repeat("a", n)
 		if a.cased {
-			wd = strings.Repeat("A", n)
+			wd = strings.Repeat(a.letters[:1], n)
 		}
 		if _, err := ki.KmerOf(wd); err == nil {
 			fail("kmerof", fmt.Sprintf("KmerOf accepted a word of %d letters for k=%d", n, k), wd, nil)
@@ -765,6 +873,14 @@ func c10Case(r *obs.Run, i int) {
 		r.Violate("alphabet-constructor", "a valid four-letter alphabet definition is not accepted: "+e, map[string]interface{}{"what": e})
 		return
 	}
+	if i == myBlocks { // once per batch: the helpers that need no index, at the supported word lengths this batch owns
+		for hk := kmerindex.MinKmerLen; hk <= kmerindex.MaxKmerLen; hk++ {
+			if hk >= 4 && hk%r.NBatch == r.Batch%r.NBatch {
+				c10Helpers(r, c10Alphas[0], hk)
+				c10Helpers(r, c10Alphas[1+(hk%2)*4], hk) // RNA, or the case-sensitive alphabet defined as TGCA
+			}
+		}
+	}
 	a := c10Alphas[rng.Intn(len(c10Alphas))]
 	kmax := r.Pick(10, 12)
 	k := 4 + rng.Intn(kmax-3)
@@ -789,7 +905,7 @@ func c10Case(r *obs.Run, i int) {
 	}
 	junk := []byte("nNxX-*0 .RYK\x00\xff\x80")
 	if a.cased {
-		junk = append(junk, "acgt"...)
+		junk = append(junk, c10OtherCase(a.letters)...)
 	}
 	lowcomplex := rng.Intn(3) == 0
 	ninv := 0
